@@ -38,10 +38,29 @@ VARIANTS = {
 XFAIL = [()]  # indices of records whose write is expected to be refused; the caller skips them
 
 
-def impl_write(records):
+class _Chunked(io.RawIOBase):
+    """A raw device that takes at most k bytes per write call (pipe, socket): the written bytes are what it received."""
+
+    def __init__(self, k):
+        super().__init__()
+        self.k, self.got = k, bytearray()
+
+    def writable(self):
+        return True
+
+    def write(self, b):
+        b = bytes(b)[: self.k]
+        self.got += b
+        return len(b)
+
+    def getvalue(self):
+        return bytes(self.got)
+
+
+def impl_write(records, chunk=None):
     from flow.record import RecordStreamWriter
 
-    buf = io.BytesIO()
+    buf = io.BytesIO() if chunk is None else _Chunked(chunk)
     w = RecordStreamWriter(buf)
     for i, r in enumerate(records):
         if i in XFAIL[0]:
@@ -94,6 +113,13 @@ def run_case(case):
             viol.append(("C02:impl:bytes-depend-on-comparison-config", case, {"plain": data.hex()[:300], "with_ignore_set": data_ign.hex()[:300]}))
     except Exception as e:  # noqa: BLE001
         viol.append(("C02:impl:write-under-ignore-config-raises-%s" % type(e).__name__, case, {"error": repr(e)[:200]}))
+    if not case.get("light"):
+        try:
+            data_ch = impl_write(records, chunk=5)
+            if data_ch != data:
+                viol.append(("C02:impl:bytes-depend-on-device:chunked", case, {"plain": data.hex()[:300], "chunked": data_ch.hex()[:300]}))
+        except Exception as e:  # noqa: BLE001
+            viol.append(("C02:impl:write-to-chunked-device-raises-%s" % type(e).__name__, case, {"error": repr(e)[:200]}))
     try:
         got, dec = refcodec.decode_stream(data)
         d = recs.list_diff(expected, got)
